@@ -554,12 +554,22 @@ func (e *Engine) harnessIntrinsic(name string, args []Value, guard T, site *ssa.
 		return nil
 	case "vpure":
 		c := args[0].(ClosureV)
+		if _, opened := e.enterRegion(true); opened {
+			defer e.leaveRegion()
+		}
 		return e.callPure(c.fn, nil, c.bind, guard)
 	case "vmerge":
 		// run library code merged (if-converted); a reachable panic is a Go panic, not a spec error
 		c := args[0].(ClosureV)
 		if e.accOn {
 			return e.callPure(c.fn, nil, c.bind, guard)
+		}
+		ok, opened := e.enterRegion(false)
+		if !ok { // retry after the merged run met something that needs forking
+			return e.call(c.fn, nil, c.bind)
+		}
+		if opened {
+			defer e.leaveRegion()
 		}
 		e.accLib = true
 		defer func() { e.accLib = false }()
